@@ -4,4 +4,4 @@ diff=$1; shift
 cd /repo && git apply "$diff" || { echo "patch does not apply"; exit 3; }
 cd /verif
 for p in "$@"; do ./check $p --tier quick 2>&1 | tail -3; echo "exit=$?"; done
-cd /repo && git checkout -- . && git status --short | grep -v '^??' | head -3
+cd /repo && git checkout -- . && (cd /verif/harness && /venv/bin/python -W ignore regen.py > /dev/null) && git status --short | grep -v '^??' | head -3
